@@ -30,6 +30,9 @@ for d in sorted(glob.glob(os.path.join(SRC, "C*", "m*"))):
     dst = os.path.join(WT, demo["copy_to"], demo["file"])
     shutil.copyfile(os.path.join(d, demo["file"]), dst)
     run = demo["run"]
+    if "go test" in run:
+        run = run[run.index("go test"):]      # drop any leading cd / export: the command runs in the scratch worktree
+        demo["run"] = run
     rc_clean, o_clean = sh(run, cwd=WT)
     sh("git apply %s/patch.diff" % d, cwd=WT)
     rc_bug, o_bug = sh(run, cwd=WT)
